@@ -12,6 +12,30 @@ def digest(obj) -> str:
     return hashlib.sha1(s.encode('utf-8', 'surrogatepass')).hexdigest()[:16]
 
 
+# ---- the environment dimension "log_level = DEBUG" --------------------------------------------------
+# Every 8th case of every budgeted workload runs with the maltoolbox logger at DEBUG (what `log_level = DEBUG` in
+# maltoolbox.yml gives): code inside `if logger.isEnabledFor(DEBUG)` blocks and the arguments of debug calls are then
+# evaluated.  The handlers keep dropping the records (their level is raised), so no log volume is written.
+DEBUG_LOG = {'on': False, 'saved': None}
+
+
+def set_debug_logging(on):
+    import logging
+    lg = logging.getLogger('maltoolbox')
+    if on and not DEBUG_LOG['on']:
+        DEBUG_LOG['saved'] = (lg.level, [(h, h.level) for h in lg.handlers])
+        for h in lg.handlers:
+            h.setLevel(max(h.level, logging.WARNING))
+        lg.setLevel(logging.DEBUG)
+        DEBUG_LOG['on'] = True
+    elif not on and DEBUG_LOG['on']:
+        level, handlers = DEBUG_LOG['saved']
+        lg.setLevel(level)
+        for h, l in handlers:
+            h.setLevel(l)
+        DEBUG_LOG['on'] = False
+
+
 class Result:
     MAX_SAMPLES = 3
     MAX_VIOL_PER_KEY = 3
@@ -33,6 +57,8 @@ class Result:
         """one generated execution; nontrivial_key: hashable digest when the
         case is non-trivial by the property's rule, else None"""
         self.evaluations += 1
+        if DEBUG_LOG['on']:
+            self.counters['env:cases-with-debug-logging'] = self.counters.get('env:cases-with-debug-logging', 0) + 1
         if nontrivial_key is not None:
             self.nontrivial.add(nontrivial_key)
 
@@ -46,6 +72,8 @@ class Result:
     def violation(self, key, what, case):
         self.viol_counts[key] = self.viol_counts.get(key, 0) + 1
         if self.viol_counts[key] <= self.MAX_VIOL_PER_KEY:
+            if DEBUG_LOG['on'] and isinstance(case, dict):
+                case = dict(case, _debug_logging=True)
             self.violations.append({'key': key, 'what': what, 'case': case})
 
     def inconc(self, reason):
@@ -78,6 +106,7 @@ class Budget:
         if time.time() - self.t0 > self.seconds:
             return False
         self.n += 1
+        set_debug_logging(self.n % 8 == 3)
         if self.n % 16 == 0:
             # every case builds hundreds of schema classes (cyclic garbage); the automatic full collection
             # becomes rarer as the heap grows, uncollected classes then slow down every abc subclass check
